@@ -333,6 +333,7 @@ struct Verdict
 {
   std::string clause, detail, msg, canon; // clause empty: no oracle failure
   int cache_at_failure = -1;
+  int at = -1; // index in the history of the operation at which the oracle failed (-1: initial state of phase 1)
   bool bad() const { return !clause.empty(); }
 };
 
@@ -409,6 +410,7 @@ static Verdict run_history(const World& w, int phase, const std::vector<int>& h,
       const int op = h[i];
       std::string what;
       bool threw = false;
+      V.at = (int)i;
       switch (op)
         {
         case 0: case 1: threw = small::throws([&] { s->set_activity_image_sptr(w.A[op - 0]); }, &what); c.A = op - 0; valid = false; break;
@@ -464,11 +466,42 @@ static void run_H(vmc::Ctx& ctx, const World& w, int phase, int depth, uint64_t&
     return "clause=" + v.clause + (v.detail.empty() ? "" : ";" + v.detail) + ";setters=" + kinds + ";cache=" + vmc::str(v.cache_at_failure);
   };
   // returns (key, case, msg) for a failing history: attributes it to a minimal failing sub-history
-  auto report = [&](const std::vector<int>& h, const Verdict& v) {
+  std::function<void(const std::vector<int>&, const Verdict&)> report = [&](const std::vector<int>& h, const Verdict& v) {
+    if (v.clause == "compute_without_set_up" && v.at >= 0)
+      { // A stale result of a compute that follows "set_up; setters..." can be the consequence of a set_up that was already wrong:
+        // if the same history WITHOUT the setters between the last set_up and the failing compute fails the (stronger) clause
+        // history_independence, it is that failure which is reported (one key per root cause); otherwise the setters are to blame.
+        std::vector<int> g(h.begin(), h.begin() + v.at + 1);
+        int last_setup = -1;
+        for (int i = 0; i < v.at; ++i) if (g[i] == OP_SETUP) last_setup = i;
+        if (last_setup >= 0 || phase == 1)
+          {
+            std::vector<int> g2;
+            for (int i = 0; i <= v.at; ++i) if (i <= last_setup || g[i] >= OP_SETUP) g2.push_back(g[i]);
+            if (g2.size() < g.size())
+              {
+                const Verdict v2 = run_history(w, phase, g2, fresh, nullptr);
+                if (v2.clause == "history_independence") { ctx.count("stale_results_attributed_to_the_preceding_set_up"); report(g2, v2); return; }
+              }
+          }
+      }
     const std::vector<int> hs = setters_of(h);
     for (auto& cu : culprits)
       if (cu.clause == v.clause && std::includes(hs.begin(), hs.end(), cu.setters.begin(), cu.setters.end()))
-        { ctx.violation(cu.key, wname + ";h=" + vmc::join(h), v.msg + "   history: " + hist_names(h)); return; }
+        {
+          ctx.violation(cu.key, wname + ";h=" + vmc::join(h), v.msg + "   history: " + hist_names(h));
+          // the history contains the setters of an already reported minimal failing history.  It must not hide a second defect:
+          // without those setters it has to pass, else the remainder is reported (and minimised) on its own.
+          if (!cu.setters.empty())
+            {
+              std::vector<int> g;
+              for (int o : h) if (o >= OP_SETUP || !std::binary_search(cu.setters.begin(), cu.setters.end(), o)) g.push_back(o);
+              const Verdict vg = run_history(w, phase, g, fresh, nullptr);
+              ctx.count("attributed_histories_rechecked_without_the_culprit_setters");
+              if (vg.bad()) report(g, vg);
+            }
+          return;
+        }
     Verdict vmin = v;
     const std::vector<int> hmin = minimise(w, phase, h, v.clause, fresh, vmin);
     Culprit cu; cu.clause = v.clause; cu.setters = setters_of(hmin); cu.key = make_key(vmin, hmin);
